@@ -195,18 +195,18 @@ Proof.
   all: try (destruct (smd s); auto; fail).
 Qed.
 
-Lemma inv_step_w : forall s, inv s -> inv (step_w all_fixed s).
+Lemma inv_step_w : forall sc s, inv s -> inv (step_w all_fixed sc s).
 Proof.
-  intros s Hkeep. pose proof Hkeep as [Hc He Hrx Hs Ho Hm].
+  intros sc s Hkeep. pose proof Hkeep as [Hc He Hrx Hs Ho Hm].
   assert (HM : mmd s = MWait \/ wmd s = WDone).
   { destruct (mmd s); auto; right; destruct Hm as [Hd _]; apply all_done_s in Hd; tauto. }
-  unfold step_w.
+  unfold step_w, cancel_emit.
   destruct (wmd s) eqn:Ewm.
   all: try (destruct HM as [HM|HM]; [|congruence]).
   all: try exact Hkeep.
   all: brk; try exact Hkeep.
   all: try match goal with |- context [st_record _ ?e] => destruct e end.
-  all: constructor; unfold pend_chunks, failed, all_done, cancel_toks in *; cbn; rewrite ?HM; cbn; auto.
+  all: constructor; unfold pend_chunks, failed, all_done, cancel_toks in *; cbn; rewrite ?app_nil_r, ?HM; cbn; auto.
   all: try (rewrite ob_app_cancel; exact Ho).
   all: try (destruct (smd s); auto; fail).
   all: try (rewrite Hc; match goal with H : closed _ = _ |- _ => rewrite H end; reflexivity).
@@ -215,12 +215,13 @@ Proof.
             [try discriminate; auto
             | right; left; change (out_boundary (wire s ++ [WCancel]) = true); rewrite ob_app_cancel; exact Ho
             | right; right; exact Ho]).
+  all: try (destruct Ho as [Ho|[Ho|Ho]]; [discriminate | right; left; exact Ho | right; right; exact Ho]).
 Qed.
 
-Lemma inv_step_m : forall s, inv s -> inv (step_m all_fixed s).
+Lemma inv_step_m : forall sc s, inv s -> inv (step_m all_fixed sc s).
 Proof.
-  intros s Hkeep. pose proof Hkeep as [Hc He Hrx Hs Ho Hm].
-  unfold step_m.
+  intros sc s Hkeep. pose proof Hkeep as [Hc He Hrx Hs Ho Hm].
+  unfold step_m, cancel_emit.
   destruct (mmd s) eqn:Emm; try exact Hkeep.
   - (* MWait *)
     destruct (all_done s) eqn:Ead; [|exact Hkeep].
@@ -239,7 +240,8 @@ Proof.
     destruct Hm as [Hd Hp].
     pose proof (all_done_s _ Hd) as [E1 [E2 E3]].
     brk.
-    all: constructor; unfold pend_chunks, failed, all_done, cancel_toks in *; cbn; rewrite ?E1, ?E2, ?E3; cbn; auto.
+    all: constructor; unfold pend_chunks, failed, all_done, cancel_toks in *; cbn; rewrite ?app_nil_r, ?E1, ?E2, ?E3; cbn; auto.
+    all: try (destruct Ho as [Ho|[Ho|[Ho ?]]]; [discriminate | right; left; exact Ho | congruence]).
     all: try (destruct Ho as [Ho|[Ho|[Ho ?]]];
             [try discriminate; auto
             | right; left; change (out_boundary (wire s ++ [WCancel]) = true); rewrite ob_app_cancel; exact Ho
@@ -413,7 +415,7 @@ Arguments has_ctx : simpl never.
 
 Ltac cfin :=
   unfold pend_chunks, failed, all_done, cancel_toks, swlen in *; cbn;
-  rewrite ?cc_app, ?ns_app, ?cc_nil, ?cc_chunk, ?cc_part, ?cc_cancel, ?ns_nil, ?ns_chunk, ?ns_part, ?ns_cancel;
+  rewrite ?app_nil_r, ?cc_app, ?ns_app, ?cc_nil, ?cc_chunk, ?cc_part, ?cc_cancel, ?ns_nil, ?ns_chunk, ?ns_part, ?ns_cancel;
   repeat match goal with H : mmd _ = _ |- _ => rewrite H in * end;
   repeat match goal with H : smd _ = _ |- _ => rewrite H in * end;
   repeat match goal with H : rmd _ = _ |- _ => rewrite H in * end;
@@ -461,13 +463,13 @@ Proof.
   all: destruct Hr as [Hr0 [Hr2 _]]; destruct (cancelled s); [|rewrite Hr0 by auto]; repeat split; intros; try lia; try discriminate.
 Qed.
 
-Lemma cinv_step_w : forall s, inv s -> cinv s -> cinv (step_w all_fixed s).
+Lemma cinv_step_w : forall sc s, inv s -> cinv s -> cinv (step_w all_fixed sc s).
 Proof.
-  intros s Hinv Hkeep. pose proof Hkeep as [Hcc Hns Hm Hd Hsw Hr Hg].
+  intros sc s Hinv Hkeep. pose proof Hkeep as [Hcc Hns Hm Hd Hsw Hr Hg].
   pose proof Hinv as [Ic Ie Irx Is Io Im].
   assert (HM : mmd s = MWait \/ wmd s = WDone).
   { destruct (mmd s); auto; right; destruct Im as [Hx _]; apply all_done_s in Hx; tauto. }
-  unfold step_w.
+  unfold step_w, cancel_emit.
   destruct (wmd s) eqn:Ewm; try exact Hkeep.
   all: destruct HM as [HM|HM]; [|congruence].
   all: repeat (brk; try exact Hkeep).
@@ -475,11 +477,11 @@ Proof.
   all: constructor; cfin.
 Qed.
 
-Lemma cinv_step_m : forall s, inv s -> cinv s -> cinv (step_m all_fixed s).
+Lemma cinv_step_m : forall sc s, inv s -> cinv s -> cinv (step_m all_fixed sc s).
 Proof.
-  intros s Hinv Hkeep. pose proof Hkeep as [Hcc Hns Hm Hd Hsw Hr Hg].
+  intros sc s Hinv Hkeep. pose proof Hkeep as [Hcc Hns Hm Hd Hsw Hr Hg].
   pose proof Hinv as [Ic Ie Irx Is Io Im].
-  unfold step_m.
+  unfold step_m, cancel_emit.
   destruct (mmd s) eqn:Emm; try exact Hkeep.
   - destruct (all_done s) eqn:Ead; [|exact Hkeep].
     pose proof (all_done_s _ Ead) as [E1 [E2 E3]].
